@@ -1,6 +1,6 @@
 (* C05, family no-op (_no_op.py: mul_by_1, add_0, sub_0, div_by_1 and commuted forms): statements only. *)
 From Coq Require Import ZArith List Bool.
-Require Import OV.Rules.BShape OV.Rules.NoOp OV.Rules.NoOpProofs.
+Require Import OV.Rules.BShape OV.Rules.NoOp OV.Rules.NoOpProofs OV.Rules.Cast OV.Rules.Dropout OV.Rules.DropoutProofs.
 Import ListNotations.
 Open Scope Z_scope.
 
@@ -26,3 +26,32 @@ Print Assumptions C05_noop_isclose_refuted.
 Theorem C05_noop_shape_sound : forall xs, bcast xs [] = Some xs /\ bcast [] xs = Some xs.
 Proof. exact noop_shape_sound. Qed.
 Print Assumptions C05_noop_shape_sound.
+
+(* dropout_inference_rule / dropout_zero_rule (Section hypotheses of the proof, listed as assumptions by the harness:
+   1 * v = v and 1 / (1 - 0) = 1 in the scalar type) *)
+Theorem C05_noop_dropout_inference : forall (F : Type) (zero : F) (mul : F -> F -> F) (scale_of : F -> F) ratio mask x,
+  OV.Rules.Dropout.dropout F zero mul scale_of false ratio mask x = x.
+Proof. exact OV.Rules.DropoutProofs.dropout_inference_sound. Qed.
+Print Assumptions C05_noop_dropout_inference.
+
+Theorem C05_noop_dropout_zero : forall (F : Type) (zero one : F) (mul : F -> F -> F) (scale_of : F -> F),
+  (forall v, mul one v = v) -> scale_of zero = one ->
+  forall training mask x, length mask = length x -> (forall m, In m mask -> m = true) ->
+  OV.Rules.Dropout.dropout F zero mul scale_of training zero mask x = x.
+Proof. exact OV.Rules.DropoutProofs.dropout_zero_sound. Qed.
+Print Assumptions C05_noop_dropout_zero.
+
+Theorem C05_noop_dropout_small_ratio_refuted : exists (scale_of : Z -> Z) mask x,
+  OV.Rules.Dropout.dropout Z 0%Z Z.mul scale_of true 1%Z mask x <> x.
+Proof. exact OV.Rules.DropoutProofs.dropout_small_ratio_refuted. Qed.
+Print Assumptions C05_noop_dropout_small_ratio_refuted.
+
+(* no_op_cast_rule (CastIdentity) *)
+Theorem C05_noop_cast_identity : forall (V : Type) (cast : Z -> Z -> V -> V), (forall d v, cast d d v = v) ->
+  forall xd to v, OV.Rules.Cast.ci_check (Some xd) to = true -> OV.Rules.Dropout.cast_node V cast xd to v = v.
+Proof. exact OV.Rules.DropoutProofs.cast_identity_sound. Qed.
+Print Assumptions C05_noop_cast_identity.
+
+Theorem C05_noop_cast_identity_unknown_dtype : forall to, OV.Rules.Cast.ci_check None to = false.
+Proof. exact OV.Rules.DropoutProofs.cast_identity_unknown_dtype. Qed.
+Print Assumptions C05_noop_cast_identity_unknown_dtype.
